@@ -25,6 +25,15 @@ func pick(r *rand.Rand, xs ...string) string { return xs[r.Intn(len(xs))] }
 
 type stateless struct{ f func(args []string) string }
 
-func (s stateless) Exec(a []string) string { return s.f(a) }
+// Exec runs a stateless op TWICE: the functions behind stateless engines are pure, so the second answer must equal the
+// first (a hidden cache, a shared buffer or a mutated argument shows up as a difference and is reported in the output,
+// where it disagrees with model and specification).
+func (s stateless) Exec(a []string) string {
+	first := s.f(append([]string(nil), a...))
+	if second := s.f(append([]string(nil), a...)); second != first {
+		return first + " NONDET:" + second
+	}
+	return first
+}
 func (s stateless) Reset()                 {}
 func (s stateless) Close()                 {}
